@@ -11,9 +11,16 @@ CFG = {
              "file_len); parsing is a normalisation (idempotent, also with a file length); to_dx9/to_dx10 keep "
              "dimensions, mip count, pixel-info shape and - for everything but DX10 1D textures - the layout. The "
              "model is tied to the code by a differential run over raw word images, constructor/builder chains, "
-             "conversions and the complete DXGI / FourCC / Format tables.",
+             "conversions and the complete DXGI / FourCC / Format tables. The ROWS of those tables are not pinned: "
+             "tools/extract_tables.py translates them from /repo's working tree into SrcTables.lean on every run, so "
+             "the table theorems (dxgi_table_complete: the named DxgiFormat constants are exactly the accepted codes; "
+             "dx_conversion_*: every FourCC / mask / DXGI row keeps the bytes-per-pixel / block shape; constructed_wf) "
+             "are re-checked by the kernel for the rows the code has now - a harmless table change re-proves them, a "
+             "row that breaks one fails its build.",
     "note": "Trusted: Lean kernel + propext/Classical.choice/Quot.sound; the hand-written model Header.lean + "
-            "pinned tables HeaderTables.lean; the correspondence check and its generators; agreement of code and "
+            "HeaderTables.lean (lookup functions, constructors, conversions; the table rows are translated from the "
+            "source by tools/extract_tables.py on every run and that translator is validated by the row-by-row "
+            "comparison of this run; the Format enumeration is pinned); the correspondence check and its generators; agreement of code and "
             "model off the generated cases; byte<->u32 little-endian step (cast.rs) is modelled (leBytes/leWords) "
             "and exercised through real byte images.",
     "profiles": ["release", "checked"],
@@ -34,7 +41,8 @@ CFG = {
     ],
     "trusted_base": ["model: lean/DdsModel/DdsModel/Header.lean (header.rs RawHeader::{read,write}, Header::{read,"
                      "write,from_raw,to_raw,fix_based_on_file_len}, Dx9PixelFormat::from_raw, builders), "
-                     "HeaderTables.lean (pinned DXGI/FourCC/mask/Format tables, constructors, to_dx9/to_dx10), "
+                     "HeaderTables.lean (DXGI/FourCC/mask/Format tables with rows translated from the source into "
+                     "SrcTables.lean by tools/extract_tables.py on every run; constructors, to_dx9/to_dx10), "
                      "Layout.lean (C02) for layout lengths"],
 }
 
